@@ -1,12 +1,241 @@
-(* C20 -- proofs *)
+(* C20 -- from the callback order of the registry to the byte stream, the stream against the parser, and the parsed
+   messages against the property. *)
 From Coq Require Import NArith Bool List Lia Arith.
-From CppUVerif Require Import lib.Str C16_Events C20_Model.
 From Coq Require String Ascii.
 Import String.StringSyntax.
 Delimit Scope string_scope with string.
+From CppUVerif Require Import lib.Str C16_Events C20_Model C20_Escape C20_Parse.
 Import ListNotations.
 Local Open Scope N_scope.
 
+(* ================= the registry loop visits the segments one after the other ================= *)
+Definition seg_events (g : list test) : list ev :=
+  match g with t :: _ => EGroupStart t :: flat_map test_events g ++ [EGroupEnd] | [] => [] end.
+
+Lemma segments_head n rest : exists g gs, segments (n :: rest) = (n :: g) :: gs.
+Proof.
+  cbn [segments]. destruct (segments rest) as [|[|m g] gs].
+  - exists [], []. reflexivity.
+  - exists [], []. reflexivity.
+  - destruct (bytes_eqb (t_group n) (t_group m)); eauto.
+Qed.
+Lemma reg_loop_flag t rest : reg_loop true (t :: rest) = EGroupStart t :: reg_loop false (t :: rest).
+Proof. reflexivity. Qed.
+Lemma reg_loop_segments ts : reg_loop true ts = flat_map seg_events (segments ts).
+Proof.
+  induction ts as [|t rest IH]; [reflexivity|].
+  destruct rest as [|n rest'].
+  - cbn. rewrite !app_nil_r. reflexivity.
+  - destruct (segments_head n rest') as [g [gs Eg]].
+    remember (n :: rest') as r eqn:Er.
+    cbn [segments]. rewrite Eg in *.
+    assert (IH' : reg_loop false r = flat_map test_events (n :: g) ++ [EGroupEnd] ++ flat_map seg_events gs).
+    { rewrite Er in *. rewrite reg_loop_flag in IH. remember (reg_loop false (n :: rest')) as X eqn:EX.
+      cbn [flat_map seg_events app] in IH. injection IH as IH. rewrite IH. cbn [flat_map]. rewrite <- !app_assoc. reflexivity. }
+    cbn [reg_loop]. replace (end_of_group t r) with (negb (bytes_eqb (t_group t) (t_group n))) by (rewrite Er; reflexivity).
+    destruct (bytes_eqb (t_group t) (t_group n)); cbn [negb].
+    + rewrite IH'. cbn [flat_map seg_events app]. rewrite <- !app_assoc. reflexivity.
+    + rewrite IH. cbn [flat_map seg_events app]. rewrite !app_nil_r, <- !app_assoc. reflexivity.
+Qed.
+
+(* every segment is non-empty; a property of all tests holds of all tests of every segment *)
+Lemma segments_forall (P : test -> bool) ts : forallb P ts = true ->
+  Forall (fun g => g <> [] /\ forallb P g = true) (segments ts).
+Proof.
+  induction ts as [|t rest IH]; [constructor|].
+  cbn [forallb]. intro H. apply andb_true_iff in H. destruct H as [Ht Hr]. specialize (IH Hr).
+  cbn [segments]. destruct (segments rest) as [|[|n g] gs] eqn:E.
+  - repeat constructor; [discriminate | cbn; rewrite Ht; reflexivity].
+  - repeat constructor; [discriminate | cbn; rewrite Ht; reflexivity].
+  - inversion IH as [|? ? [_ Hg] Hgs]; subst.
+    destruct (bytes_eqb (t_group t) (t_group n)).
+    + constructor; [|exact Hgs]. split; [discriminate|]. cbn [forallb]. rewrite Ht. exact Hg.
+    + constructor; [|exact IH]. split; [discriminate|]. cbn. rewrite Ht. reflexivity.
+Qed.
+
+(* ================= the writer's output for the callbacks of one test, one segment, a whole run ================= *)
+Section WriterFacts.
+Variable dur : N.
+Notation stepR := (tc_step Esc true dur).
+Notation itemsR := (tc_items Esc true dur).
+
+Lemma items_cons st e r : itemsR st (e :: r) = snd (stepR st e) ++ itemsR (fst (stepR st e)) r.
+Proof. cbn [tc_items]. destruct (stepR st e). reflexivity. Qed.
+
+(* statements of a test body *)
+Fixpoint body_items (t : test) (b : list stmt) : list item :=
+  match b with
+  | [] => []
+  | SPrint s :: r => IText s :: body_items t r
+  | SFail f l m :: r => IMsg (failure_pmsg Esc t f l m) :: body_items t r
+  | SFailStop f l m :: _ => [IMsg (failure_pmsg Esc t f l m)]
+  end.
+Lemma items_body st t b : forall rest, itemsR st (fst (body_events t b) ++ rest) = body_items t b ++ itemsR st rest.
+Proof.
+  induction b as [|s b IH]; intro rest; [reflexivity|].
+  destruct s as [x|f l m|f l m]; cbn [body_events body_items].
+  - destruct (body_events t b) as [e c]. cbn [fst app] in *. rewrite items_cons. cbn [tc_step fst snd app]. rewrite IH. reflexivity.
+  - destruct (body_events t b) as [e c]. cbn [fst app] in *. rewrite items_cons. cbn [tc_step fst snd app]. rewrite IH. reflexivity.
+  - cbn [fst app]. rewrite items_cons. reflexivity.
+Qed.
+
+Definition finished_pmsg (t : test) : pmsg :=
+  {| pm_name := L_testFinished; pm_attrs := [(L_name, [Esc (t_name t)]); (L_duration, [Raw (dec (if t_ignored t then 0 else dur))])] |}.
+Definition test_items (t : test) : list item :=
+  IMsg (named L_testStarted (t_name t)) :: (if t_ignored t then [IMsg (named L_testIgnored (t_name t))] else [])
+  ++ (if t_ignored t then [] else body_items t (t_body t)) ++ [IMsg (finished_pmsg t)].
+Definition with_test (st : tcst) (t : test) : tcst := {| c_test := Some t; c_group := c_group st; c_open := c_open st |}.
+
+Lemma items_test st t rest : itemsR st (test_events t ++ rest) = test_items t ++ itemsR (with_test st t) rest.
+Proof.
+  unfold test_events, test_items. destruct (t_ignored t) eqn:Ei.
+  - cbn [app]. rewrite items_cons. cbn [tc_step fst snd]. rewrite Ei. fold (with_test st t).
+    cbn [app]. rewrite items_cons. cbn [tc_step fst snd with_test c_test]. unfold finished_pmsg. rewrite Ei. reflexivity.
+  - pose proof (items_body (with_test st t) t (t_body t)) as Hb.
+    destruct (body_events t (t_body t)) as [e c]. cbn [fst] in Hb.
+    cbn [app]. rewrite items_cons. cbn [tc_step fst snd]. rewrite Ei. fold (with_test st t).
+    cbn [app]. rewrite <- app_assoc, Hb. cbn [app]. rewrite items_cons. cbn [tc_step fst snd with_test c_test].
+    unfold finished_pmsg. rewrite Ei, <- app_assoc. reflexivity.
+Qed.
+
+Lemma items_tests g : forall st rest, exists st',
+  c_group st' = c_group st /\ c_open st' = c_open st /\
+  itemsR st (flat_map test_events g ++ rest) = flat_map test_items g ++ itemsR st' rest.
+Proof.
+  induction g as [|t g IH]; intros st rest.
+  - exists st. repeat split.
+  - destruct (IH (with_test st t) rest) as [st' [Hg [Ho E]]].
+    exists st'. split; [exact Hg | split; [exact Ho|]].
+    cbn [flat_map]. rewrite <- !app_assoc, items_test, E. reflexivity.
+Qed.
+
+Definition seg_items (g : list test) : list item :=
+  IMsg (named L_testSuiteStarted (group_name g)) :: flat_map test_items g ++ [IMsg (named L_testSuiteFinished (group_name g))].
+
+Lemma items_seg g st rest : g <> [] -> exists st', itemsR st (seg_events g ++ rest) = seg_items g ++ itemsR st' rest.
+Proof.
+  intro Hne. destruct g as [|t g]; [contradiction|].
+  unfold seg_events, seg_items. cbn [group_name].
+  remember (t :: g) as G.
+  cbn [app]. rewrite items_cons. cbn [tc_step fst snd app].
+  destruct (items_tests G {| c_test := c_test st; c_group := t_group t; c_open := true |} ([EGroupEnd] ++ rest)) as [st' [Hg [Ho E]]].
+  cbn [c_group c_open] in Hg, Ho.
+  rewrite <- app_assoc, E. cbn [app]. rewrite items_cons. cbn [tc_step]. rewrite Ho, Hg. cbn [negb fst snd].
+  eexists. rewrite <- app_assoc. reflexivity.
+Qed.
+
+Lemma items_segs gs : forall st rest, Forall (fun g => g <> []) gs ->
+  exists st', itemsR st (flat_map seg_events gs ++ rest) = flat_map seg_items gs ++ itemsR st' rest.
+Proof.
+  induction gs as [|g gs IH]; intros st rest Hne.
+  - exists st. reflexivity.
+  - inversion Hne as [|? ? Hg Hgs]; subst.
+    cbn [flat_map]. rewrite <- !app_assoc.
+    destruct (items_seg g st (flat_map seg_events gs ++ rest) Hg) as [st1 E1]. rewrite E1.
+    destruct (IH st1 rest Hgs) as [st2 E2]. rewrite E2. exists st2. rewrite <- app_assoc. reflexivity.
+Qed.
+
+(* ---- everything the writer prints is well-formed as long as test bodies do not print *)
+Definition noprint (t : test) : bool :=
+  forallb (fun s => match s with SPrint _ => false | _ => true end) (t_body t).
+
+Lemma named_ok_started n : pmsg_ok (named L_testStarted n) = true. Proof. reflexivity. Qed.
+Lemma named_ok_ignored n : pmsg_ok (named L_testIgnored n) = true. Proof. reflexivity. Qed.
+Lemma named_ok_sstarted n : pmsg_ok (named L_testSuiteStarted n) = true. Proof. reflexivity. Qed.
+Lemma named_ok_sfinished n : pmsg_ok (named L_testSuiteFinished n) = true. Proof. reflexivity. Qed.
+Lemma finished_ok t : pmsg_ok (finished_pmsg t) = true.
+Proof.
+  unfold pmsg_ok, finished_pmsg. cbn [pm_name pm_attrs attrs_ok fst snd forallb seg_ok].
+  rewrite dec_plain_raw. reflexivity.
+Qed.
+Lemma failure_ok_pmsg t f l m : pmsg_ok (failure_pmsg Esc t f l m) = true.
+Proof.
+  unfold pmsg_ok, failure_pmsg. cbn [pm_name pm_attrs attrs_ok fst snd].
+  destruct (negb (bytes_eqb (t_file t) f) || (l <? t_line t)); cbn [app forallb seg_ok]; rewrite ?dec_plain_raw; reflexivity.
+Qed.
+
+Lemma body_items_ok t b : forallb (fun s => match s with SPrint _ => false | _ => true end) b = true ->
+  forallb item_ok (body_items t b) = true.
+Proof.
+  induction b as [|s b IH]; [reflexivity|]. cbn [forallb]. intro H. apply andb_true_iff in H. destruct H as [Hs Hb].
+  destruct s as [x|f l m|f l m]; [discriminate Hs| |]; cbn [body_items forallb item_ok]; rewrite failure_ok_pmsg; [apply IH; exact Hb | reflexivity].
+Qed.
+Lemma test_items_ok t : noprint t = true -> forallb item_ok (test_items t) = true.
+Proof.
+  intro H. unfold test_items. cbn [forallb item_ok]. rewrite named_ok_started. cbn [andb].
+  rewrite !forallb_app. cbn [forallb item_ok]. rewrite finished_ok.
+  destruct (t_ignored t); cbn [forallb item_ok]; rewrite ?named_ok_ignored; [reflexivity|].
+  rewrite (body_items_ok t _ H). reflexivity.
+Qed.
+Lemma tests_items_ok g : forallb noprint g = true -> forallb item_ok (flat_map test_items g) = true.
+Proof.
+  induction g as [|t g IH]; [reflexivity|]. cbn [forallb flat_map]. intro H. apply andb_true_iff in H. destruct H as [Ht Hg].
+  rewrite forallb_app, (test_items_ok t Ht), (IH Hg). reflexivity.
+Qed.
+Lemma seg_items_ok g : forallb noprint g = true -> forallb item_ok (seg_items g) = true.
+Proof.
+  intro H. unfold seg_items. cbn [forallb item_ok]. rewrite named_ok_sstarted. cbn [andb].
+  rewrite forallb_app, (tests_items_ok g H). cbn [forallb item_ok]. rewrite named_ok_sfinished. reflexivity.
+Qed.
+Lemma segs_items_ok gs : Forall (fun g => g <> [] /\ forallb noprint g = true) gs -> forallb item_ok (flat_map seg_items gs) = true.
+Proof.
+  induction 1 as [|g gs [_ Hg] _ IH]; [reflexivity|]. cbn [flat_map]. rewrite forallb_app, (seg_items_ok g Hg), IH. reflexivity.
+Qed.
+
+(* ---- what a decoder must read from it: messages_of *)
+Lemma msgs_of_items_app a b : msgs_of_items (a ++ b) = msgs_of_items a ++ msgs_of_items b.
+Proof. induction a as [|[m|s] a IH]; cbn [app msgs_of_items]; rewrite ?IH; reflexivity. Qed.
+
+Lemma erase_failure t f l m : erase (failure_pmsg Esc t f l m) = failure_msg t (f, l, m).
+Proof.
+  unfold erase, failure_pmsg, failure_msg, failure_text, loc_text. cbn [pm_name pm_attrs map fst snd]. f_equal.
+  destruct (negb (bytes_eqb (t_file t) f) || (l <? t_line t)); cbn [app flat_map seg_dec];
+    repeat (rewrite <- app_assoc || rewrite <- app_comm_cons || rewrite app_nil_r); reflexivity.
+Qed.
+Lemma msgs_body t b : msgs_of_items (body_items t b) = map (failure_msg t) (all_failures b).
+Proof.
+  induction b as [|s b IH]; [reflexivity|].
+  destruct s as [x|f l m|f l m]; cbn [body_items msgs_of_items all_failures map]; rewrite ?erase_failure, ?IH; reflexivity.
+Qed.
+Lemma erase_named k n : erase (named k n) = mk_named k n.
+Proof. unfold erase, named, mk_named. cbn [pm_name pm_attrs map fst snd flat_map seg_dec]. rewrite app_nil_r. reflexivity. Qed.
+Lemma erase_finished t :
+  erase (finished_pmsg t) = {| m_name := L_testFinished; m_attrs := [(L_name, t_name t); (L_duration, dec (if t_ignored t then 0 else dur))] |}.
+Proof. unfold erase, finished_pmsg. cbn [pm_name pm_attrs map fst snd flat_map seg_dec]. rewrite !app_nil_r. reflexivity. Qed.
+Lemma msgs_test t : msgs_of_items (test_items t) = test_msgs dur t.
+Proof.
+  unfold test_items, test_msgs, test_failures. cbn [msgs_of_items]. rewrite !msgs_of_items_app.
+  cbn [msgs_of_items]. rewrite erase_named, erase_finished.
+  destruct (t_ignored t); cbn [msgs_of_items map app]; rewrite ?erase_named, ?msgs_body; reflexivity.
+Qed.
+Lemma msgs_tests g : msgs_of_items (flat_map test_items g) = flat_map (test_msgs dur) g.
+Proof. induction g as [|t g IH]; [reflexivity|]. cbn [flat_map]. rewrite msgs_of_items_app, msgs_test, IH. reflexivity. Qed.
+Lemma msgs_seg g : msgs_of_items (seg_items g) = suite_msgs dur g.
+Proof. unfold seg_items, suite_msgs. cbn [msgs_of_items]. rewrite msgs_of_items_app, msgs_tests. cbn [msgs_of_items]. rewrite !erase_named. reflexivity. Qed.
+Lemma msgs_segs gs : msgs_of_items (flat_map seg_items gs) = flat_map (suite_msgs dur) gs.
+Proof. induction gs as [|g gs IH]; [reflexivity|]. cbn [flat_map]. rewrite msgs_of_items_app, msgs_seg, IH. reflexivity. Qed.
+
+(* ---- the stream of a whole run *)
+Lemma run_items ts : tc_items Esc true dur tc_init (events_of ts) = flat_map seg_items (segments ts).
+Proof.
+  unfold events_of. rewrite reg_loop_segments.
+  assert (Hne : Forall (fun g : list test => g <> []) (segments ts)).
+  { assert (Ht : forallb (fun _ : test => true) ts = true) by (clear; induction ts; cbn; auto).
+    pose proof (segments_forall (fun _ => true) ts Ht) as H. eapply Forall_impl; [|exact H]. intros g [Hg _]. exact Hg. }
+  destruct (items_segs (segments ts) tc_init [] Hne) as [st' E].
+  rewrite !app_nil_r in E. cbn [tc_items] in E. rewrite ?app_nil_r in E. exact E.
+Qed.
+
+Lemma stream ts trailer : forallb noprint ts = true -> no_hash trailer = true ->
+  tc_parse (render_tc dur ts ++ trailer) = Some (messages_of dur ts).
+Proof.
+  intros Hp Ht. unfold render_tc, render_with, messages_of. rewrite run_items.
+  rewrite parse_items; [|apply segs_items_ok, segments_forall, Hp|exact Ht].
+  rewrite msgs_segs. reflexivity.
+Qed.
+End WriterFacts.
+
+(* ================= example ================= *)
 Definition ex_test1 : test :=
   {| t_group := (B "G'1"%string); t_name := (B "t[1]"%string); t_file := (B "it's.cpp"%string); t_line := 10; t_ignored := false;
      t_body := [SFail ((B "it's.cpp"%string)) 12 ((B "a|b
